@@ -595,5 +595,10 @@ Definition av_rows_plain (S : schema) : bool :=
                     then match k_attrs r, k_children r with [], [] => true | _, _ => false end else true) S.
 
 Definition show_unit (r : result unit) : val := match r with Ok _ => VB true | Err e => VE e end.
+(* the property says "fails", not with which exception class: accepted / raises
+   (a model-domain refusal stays visible) *)
+Definition RAISES : str := s2l "raises".
+Definition show_unit_coarse (r : result unit) : val :=
+  match r with Ok _ => VB true | Err e => if str_eqb e MODEL_DOMAIN then VE e else VE RAISES end.
 (* 0 = every constraint satisfied (goodb), 1 = a reachable violation, 2 = neither *)
 Definition show_spec (good viol : bool) : val := VZ (if viol then 1 else if good then 0 else 2)%Z.
